@@ -758,15 +758,23 @@ func c06ConnectEval(f []string) (string, []string) {
 	if len(f) != 5 {
 		return "bad-case", nil
 	}
-	sites := c01ParseSites(f[1])
-	cfgs := c06ParseCfgs(f[2])
+	name := hx.UnHS(f[3])
+	return c06ConnRun(f[0], f[1], f[2], name, name, hx.UnHS(f[4]))
+}
+
+// c06ConnRun builds the real listener (httpserver.NewServer over sites whose TLS.Hostname is the
+// site's Addr.Host, as InspectServerBlocks sets it), asks its tls.Config which config governs a
+// ClientHello for `sni`, then sends a request with Host `host` over a connection whose
+// ConnectionState carries `sni` through Server.ServeHTTP.
+func c06ConnRun(aesniField, sitesField, cfgsField, sni, host, path string) (string, []string) {
+	sites := c01ParseSites(sitesField)
+	cfgs := c06ParseCfgs(cfgsField)
 	if len(sites) != len(cfgs) {
 		return "bad-case", nil
 	}
-	if !c06AesniOK(f[0], cfgs) {
+	if !c06AesniOK(aesniField, cfgs) {
 		return "bad-case:aesni field does not describe this CPU", nil
 	}
-	name, path := hx.UnHS(f[3]), hx.UnHS(f[4])
 	var ran []int
 	group := make([]*httpserver.SiteConfig, len(sites))
 	configs := make([]*caskettls.Config, len(sites))
@@ -801,11 +809,11 @@ func c06ConnectEval(f []string) (string, []string) {
 		return "err:" + cls + "\t||\tnotfound\t0", append(tags, "trivial-rejected")
 	}
 	sel := "plain"
-	req := &http.Request{Method: "GET", Host: name, URL: &url.URL{Path: path}, Proto: "HTTP/1.1", ProtoMajor: 1, ProtoMinor: 1,
+	req := &http.Request{Method: "GET", Host: host, URL: &url.URL{Path: path}, Proto: "HTTP/1.1", ProtoMajor: 1, ProtoMinor: 1,
 		Header: http.Header{}, RemoteAddr: "192.0.2.1:4000", RequestURI: path}
 	if tc := srv.Server.TLSConfig; tc != nil {
-		req.TLS = &tls.ConnectionState{ServerName: name}
-		hello := &tls.ClientHelloInfo{ServerName: name}
+		req.TLS = &tls.ConnectionState{ServerName: sni}
+		hello := &tls.ClientHelloInfo{ServerName: sni}
 		idx := -3
 		for try := 0; try < 400; try++ {
 			got, err := tc.GetConfigForClient(hello)
